@@ -709,7 +709,9 @@ class Check:
             "wall_s": round(wall, 1),
             "violations": len(final_v),
         }
-        evdir = mkdir(os.environ.get("VERIF_EVIDENCE_DIR", os.path.join(ROOT, "evidence")))
+        # extension checks (ids X01.., behaviour outside the 20 listed properties, not registered in MANIFEST.json) keep their
+        # evidence apart from the evidence of the listed properties
+        evdir = mkdir(os.environ.get("VERIF_EVIDENCE_DIR", os.path.join(ROOT, "evidence", "ext") if self.prop.startswith("X") else os.path.join(ROOT, "evidence")))
         with open(os.path.join(evdir, self.prop + ".json"), "w") as f:
             json.dump(ev, f, indent=1)
         for desc, dst in final_v:
